@@ -623,6 +623,7 @@ func main() {
 	settingsF := flag.String("settings", "", "keep only genum cases whose switch setting is in this comma-separated list of masks (bit0 json off, bit1 yaml off, bit2 text off, bit3 caseInsensitive, bit4 disableTraits)")
 	maxN := flag.Int("max", 0, "keep at most this many generated cases (seeded sample; corpus/-in specs are always kept)")
 	flag.Parse()
+	repoDir = *repo
 	if *mode == "sigs" {
 		if err := writeIfaceSigs(*outp); err != nil {
 			fmt.Fprintln(os.Stderr, err)
